@@ -130,6 +130,8 @@ type RequestSpec struct {
 	// LinearFeed, when set, replaces the fork-free block source of the tier1 linear phase.
 	LinearFeed func(ctx context.Context, h bstream.Handler, start, stop uint64, cursor string) error `json:"-"`
 	StuckAfter      time.Duration         `json:"-"` // no job in flight and no data message for this long => stuck (default 20s)
+	// Tier2Feed, when set, replaces the fork-free block source of every tier2 job of this request.
+	Tier2Feed func(ctx context.Context, h bstream.Handler, start, stop uint64) error `json:"-"`
 	// CursorResolver overrides the resolver of non-final start cursors (default: fork-free chain).
 	CursorResolver func(ctx context.Context, cur *bstream.Cursor) (junction, head bstream.BlockRef, err error) `json:"-"`
 	// Preload switches the walker's background preloading of the next cached-output file (hook H8).
@@ -364,6 +366,10 @@ func (rs *runState) tier2StreamFactory(ctx context.Context, h bstream.Handler, s
 	start := uint64(startBlockNum)
 	if start < rs.cl.FirstStreamable {
 		start = rs.cl.FirstStreamable
+	}
+	if rs.spec.Tier2Feed != nil {
+		feed := rs.spec.Tier2Feed
+		return &feedStream{f: func(ctx context.Context) error { return feed(ctx, h, start, stopBlockNum) }}, nil
 	}
 	return &linearStream{rs: rs, h: h, start: start, stop: stopBlockNum, tier1: false}, nil
 }
